@@ -29,8 +29,10 @@
      "memNotUpdatedOnDelete"   Shares.Delete forgets the in-memory map
      "noInferiorGuard"         a block not newer than the last processed one is processed again
      "markerOutsideTxn"        SaveLastProcessedBlock writes outside the block transaction
-   ReadFaults = TRUE adds the failure of the OperatorsExist read inside validateOperators, which the code
-   wraps into a MalformedEventError (the event is skipped, processing continues).                       *)
+     "readErrorSwallowed"      a failed OperatorsExist read inside validateOperators is wrapped into a
+                               MalformedEventError: the event is skipped, the block goes on (the code before
+                               fix 3dbd518c8)
+   ReadFaults = TRUE makes that read ("validate" effect) a failure point like every write.              *)
 EXTENDS Integers, Sequences, FiniteSets, TLC
 
 CONSTANTS Owners, Validators, OpIds,
@@ -294,7 +296,7 @@ Step ==
    from the recorded last processed block + 1 *)
 Die(name) ==
     /\ nFault < MaxFaults /\ (pos > 0 \/ pend # <<>>)
-    /\ (name = "Fail" => pend # <<>> /\ Head(pend).t # "validate")   \* reads: see FailRead
+    /\ (name = "Fail" => pend # <<>> /\ (Head(pend).t = "validate" => ReadFaults /\ Weaken # "readErrorSwallowed"))
     /\ tx' = db /\ mem' = Load(db) /\ pend' = <<>> /\ pos' = 0
     /\ IF db.last >= blockNo                      \* only with a weakened marker: the block is skipped
        THEN blockNo' = db.last + 1 /\ blk' = <<>> /\ closed' = FALSE
@@ -305,10 +307,10 @@ Die(name) ==
 Crash == Grain = "op" /\ Die("Crash")
 Fail  == Grain = "op" /\ Die("Fail")
 
-(* ReadFaults: the OperatorsExist read of validateOperators returns an error.  The code wraps whatever
+(* named deviation: the OperatorsExist read of validateOperators returns an error and the handler wraps whatever
    validateOperators returns into a MalformedEventError: the rest of the event is skipped, the block goes on. *)
 FailRead ==
-    /\ Grain = "op" /\ ReadFaults /\ nFault < MaxFaults
+    /\ Grain = "op" /\ ReadFaults /\ Weaken = "readErrorSwallowed" /\ nFault < MaxFaults
     /\ pend # <<>> /\ Head(pend).t = "validate"
     /\ pend' = <<>> /\ nFault' = nFault + 1
     /\ act' = [name |-> "Fail", at |-> "validate", swallowed |-> TRUE]
